@@ -171,3 +171,39 @@ def message(direction=None, spec_mode=True, only=None):
     """-> strategy of [kind, fields]."""
     ks = only or [k for k in kinds.ALL_KINDS if direction is None or k.startswith(direction) or (k == 'exc' and direction == 'rsp')]
     return st.sampled_from(ks).flatmap(lambda k: fields(k, spec_mode).map(lambda f: [k, f]))
+
+
+# ----------------------------------------------------------------------------- datastore layouts
+@st.composite
+def block(draw, bits, max_size=60):
+    val = st.booleans() if bits else u16()
+    shape = draw(st.sampled_from(['seq', 'seq', 'seq', 'sparse']))
+    if shape == 'seq':
+        n = draw(st.one_of(st.integers(1, 12), st.integers(1, max_size), st.integers(1, max_size)))
+        start = draw(st.one_of(st.integers(0, 12), st.integers(0, 12), st.integers(0, 65535), st.just(65536 - n), st.just(65537 - n)))
+        start = max(0, min(start, 65537 - n))
+        vals = draw(st.one_of(st.lists(val, min_size=n, max_size=n), st.just([False if bits else 0] * n)))
+        return {'shape': 'seq', 'start': start, 'values': vals}
+    base = draw(st.one_of(st.integers(0, 10), st.integers(0, 65400)))
+    offs = draw(st.lists(st.integers(0, 50), min_size=1, max_size=30, unique=True))
+    keys = sorted(base + o for o in offs)
+    return {'shape': 'sparse', 'keys': keys, 'values': draw(st.lists(val, min_size=len(keys), max_size=len(keys)))}
+
+
+@st.composite
+def layout(draw, max_size=60):
+    share = draw(st.sampled_from([None, None, None, 'bits', 'regs', 'both']))
+    return {'zero_mode': draw(st.booleans()), 'share': share,
+            'tables': {'c': draw(block(True, max_size)), 'd': draw(block(True, max_size)),
+                       'h': draw(block(False, max_size)), 'i': draw(block(False, max_size))}}
+
+
+def runs(cells):
+    """maximal runs of consecutive addresses in a dict/iterable of addresses -> [(first, length)]"""
+    out = []
+    for a in sorted(cells):
+        if out and out[-1][0] + out[-1][1] == a:
+            out[-1][1] += 1
+        else:
+            out.append([a, 1])
+    return [(a, n) for a, n in out]
